@@ -476,6 +476,14 @@ def run(ctx):
                 okattr = must_pass(pa_, (ok_t, 0), back, through=through)
     C.check(okattr, 'C01-SIB-reader', 'parse_attribute_text|recognised-attribute-is-stored-or-reported', 'parse_attribute_text can go on to the next attribute without having stored the current one and without an error or warning (a data-dependent skip): attributes of the document are silently missing from the loaded model',
             '%s:%d' % (pa_.file, pa_.line), sample={'fn': 'parse_attribute_text', 'per_attribute': 'push(Attribute) or optional_error(..)'})
+    # the text handed to the value parser is a slice of the input (nothing is substituted in it before it is decoded: the serializer
+    # writes tab / CR / LF in attribute values literally, so a normalisation on load is not undone on save)
+    for q in calls(pa_, r'ArxmlParser.*::parse_character_data$'):
+        t_ = pa_.blocks[q[0]]['term']
+        n_, c_, f_ = deep_sources(pa_, t_['args'][1], depth=14) if len(t_['args']) > 1 else (set(), set(), set())
+        rebuilt = sorted(c.rsplit('::', 1)[-1] for c in c_ if re.search(r'Iterator>?::(map|collect|filter|flat_map|cloned|copied)$|::(to_vec|to_owned|into_owned|replace|replacen|concat|join|to_ascii_\w+|to_lowercase|to_uppercase)$|Vec::<T.*>::(push|extend\w*|from)$|FromIterator', c))
+        C.check(not rebuilt, 'C01-SIB-reader', 'parse_attribute_text|value-text-is-a-slice-of-the-input', 'parse_attribute_text hands the value parser a text that was rebuilt from the input (%s) instead of a slice of it: characters of the attribute value are changed on load '
+                '(e.g. tab / CR / LF -> space) and the value does not survive load -> serialize -> load' % ', '.join(rebuilt), pa_.where(q))
     # attribute values and element text both go through parse_character_data
     pa = P.get('ArxmlParser::parse_attribute_text')
     pe = P.get('ArxmlParser::parse_element')
